@@ -18,7 +18,7 @@ CHECKS = {
          'compares the snapshot (entries in list order, state, size, expiry, lru.size, hit counters) with TLC\'s prediction. The byte-sized '
          'scenario of the design (n small entries + one large against 2000 bytes) and seeded random histories with a Flight call held at a '
          'verif hook (every event explained by LruTrace.tla with all invariants and action properties evaluated) complete it.',
-    design_ref='DESIGN.md 4.3, 5 C10, 7 #1; proposed/design_store.md',
+    design_ref='DESIGN.md 4.3, 5 C10, 7 #1; design/store.md',
     note='Trusted: TLC, the snapshot taken under the lru lock, ScaleHits (the 1024-hit move threshold is exercised as "every 2nd hit" by '
          'resetting the per-key counters below the threshold before each call; batches of at most 2 items). Bounded: exhaustive only up to '
          'depth 5 (quick) / 6 (thorough) for 3 keys x 2 commands; deeper states only by random walks (thorough) and random histories. '
